@@ -189,6 +189,7 @@ def inline_bases():
         NT("Y", [A("b"), A("c", "Z")]),
         NT("Z", [A("c"), A("a", "b")]),
     ], tags=["nested inlining", "two occurrences"]), ["X", "Y", "Z"]))
+    out[-1][0].min_n = 6
     return out
 
 
@@ -202,6 +203,7 @@ def inline_variants(seed=0, all_subsets_upto=3):
             nts = [NT(n.name, n.alts, n.pub, n.name in sub, list(n.params), n.ty, list(n.cfgs)) for n in g.nts]
             tag = "".join("1" if x in sub else "0" for x in inl)
             gs.append(Grammar("%s_%s" % (g.name, tag), g.terms, nts, tags=g.tags + ["inline subset %s" % (sub,)]))
+            gs[-1].min_n = getattr(g, "min_n", 0)
     return gs
 
 
@@ -289,8 +291,10 @@ def rename_grammar(g: Grammar, mapping, newname):
                     (mapping.get(a.cond[0], a.cond[0]), a.cond[1], a.cond[2]) if a.cond else None,
                     list(a.cfgs), a.prec, a.assoc, a.tag) for a in n.alts]
         nts.append(NT(mapping.get(n.name, n.name), alts, n.pub, n.inline, [mapping.get(p, p) for p in n.params], n.ty, list(n.cfgs)))
-    return Grammar(newname, g.terms, nts, g.lalr, g.tokmod, g.error_ty, g.loc_ty, list(g.uses), g.params,
-                   tags=g.tags + ["renamed %s" % mapping], not_lalr=g.not_lalr)
+    out = Grammar(newname, g.terms, nts, g.lalr, g.tokmod, g.error_ty, g.loc_ty, list(g.uses), g.params,
+                  tags=g.tags + ["renamed %s" % mapping], not_lalr=g.not_lalr)
+    out.min_n = getattr(g, "min_n", 0)
+    return out
 
 
 def all_grammars(seed=0):
